@@ -151,11 +151,18 @@ func verifTickerDuration(x float64) {
 //@   assigns *
 //@   after "sc.RemoteAddr()" assigns nothing
 //@   after "ua.NewExtensionObject(nil)" assigns nothing
-//@   ensures [C32:typed] err == nil ==> typeis(r, *ua.CreateSubscriptionRequest) && typeis(result0, *ua.CreateSubscriptionResponse)
-//@   ensures [C32:fresh-id] err == nil ==> forall x uint32 :: x == dyn(result0, *ua.CreateSubscriptionResponse).SubscriptionID ==> !old(in(x, s.Subs))
-//@   ensures [C32:registered] err == nil ==> in(dyn(result0, *ua.CreateSubscriptionResponse).SubscriptionID, s.Subs) && subsInv(s)
-//@   ensures [C29:interval-usable] err == nil ==> intervalOK(s.Subs[dyn(result0, *ua.CreateSubscriptionResponse).SubscriptionID].RevisedPublishingInterval)
-//@   canary ensures [C32:canary-id-one] err == nil ==> dyn(result0, *ua.CreateSubscriptionResponse).SubscriptionID == 1
+//@   ensures [C32:typed] err == nil ==> typeis(r, *ua.CreateSubscriptionRequest) &&
+//@           (typeis(result0, *ua.CreateSubscriptionResponse) || typeis(result0, *ua.ServiceFault))
+//@   ensures [C32:fresh-id] err == nil && typeis(result0, *ua.CreateSubscriptionResponse) ==>
+//@           forall x uint32 :: x == dyn(result0, *ua.CreateSubscriptionResponse).SubscriptionID ==> !old(in(x, s.Subs))
+//@   ensures [C32:registered] err == nil && typeis(result0, *ua.CreateSubscriptionResponse) ==>
+//@           in(dyn(result0, *ua.CreateSubscriptionResponse).SubscriptionID, s.Subs) && subsInv(s)
+//@   ensures [C29:interval-usable] err == nil && typeis(result0, *ua.CreateSubscriptionResponse) ==>
+//@           intervalOK(s.Subs[dyn(result0, *ua.CreateSubscriptionResponse).SubscriptionID].RevisedPublishingInterval)
+//@   ensures [C29:session-present] err == nil && typeis(result0, *ua.CreateSubscriptionResponse) ==>
+//@           s.Subs[dyn(result0, *ua.CreateSubscriptionResponse).SubscriptionID].Session != nil
+//@   ensures [C29:refused-untouched] err == nil && typeis(result0, *ua.ServiceFault) ==> s.lastSubID == old(s.lastSubID)
+//@   canary ensures [C32:canary-id-one] err == nil && typeis(result0, *ua.CreateSubscriptionResponse) ==> dyn(result0, *ua.CreateSubscriptionResponse).SubscriptionID == 1
 
 // same session: the authentication tokens have the same textual form (what the code compares)
 //@ pred sameSession(a *session, b *session) := a != nil && b != nil && ua.nodeStr(a.AuthTokenID) == ua.nodeStr(b.AuthTokenID)
